@@ -102,6 +102,14 @@ def translate(ctx):
     if not mine:
         ctx.log("translator errors concern generated files this property does not import: " + ", ".join(failed))
         return True, out
+    # theorems that rest on a generated file that could not be regenerated are stated about the previous source: not discharged
+    stale = []
+    for f in prop_files(ctx.pid):
+        mod = "NucleoVerif.Props." + os.path.basename(f)[:-5]
+        cl = lean_import_closure([mod])
+        if any(f"NucleoVerif.Gen.{g}" in cl for g in mine):
+            stale += theorem_names_of(f)
+    ctx.stale_theorems = stale
     return False, "\n".join(l for l in out.splitlines() if any(f"TRANSLATE-ERROR {f}.lean" in l for f in mine))
 
 
@@ -379,6 +387,10 @@ def proof_stage(ctx, extra_targets=()):
         ctx.coverage.update(proof_broken=True, obligations_stated=len(theorem_names(pid)))
     else:
         n, d, problems, used, names = audit(ctx, pid)
+        stale = [t for t in getattr(ctx, "stale_theorems", []) if t in names]
+        if stale:
+            d = max(0, d - len(stale))
+            ctx.coverage["not_discharged_translation_failed"] = stale[:50]
         ctx.coverage.update(obligations=n, discharged=d, axioms_used=sorted(used), theorems=names)
         if problems:
             res["ok"] = False
